@@ -44,6 +44,8 @@ REQUEST_FUNCS = {
     "_deserialize_params", "_validate_params", "_validate_call_signature", "_check_protocol_version", "parse_version",
     "_coerce_input_batch", "_run_unary_sync", "_run_stream_init_sync", "_run_stream_exchange_sync", "_drain_stream",
     "_get_request_stream", "_resolve_method", "_check_content_type", "on_post",
+    # token payload vs the state the *route* declares: a valid token of another method reaches these refusals
+    "_resolve_state_cls", "_deserialize_state_bytes",
 }
 
 
